@@ -539,6 +539,126 @@ theorem split_stream_mirror_n (c : Cfg ε) (hc : c.caching = true) (hns : NoSing
           rw [hinvJ.mirror.memC, hinvJ.mirror.memH]
           exact hidsI.fresh ph pa id r (toI _ _ _ r hr)
 
+/-! ### … and any instances may be lost at any point -/
+
+/-- lockstep execution in which instances may be LOST at any point: a lost instance takes no further part (its
+state is frozen and irrelevant); the event goes to a live instance and every other LIVE instance applies the
+notification.  `alive` is the current set of live instances. -/
+inductive LockC (c : Cfg ε) {n : Nat} (f : Fin n → Nat → String) : (Fin n → DState ε) → (Fin n → Bool) → Prop
+  | init : LockC c f (fun _ => {}) (fun _ => true)
+  | lose {node : Fin n → DState ε} {alive : Fin n → Bool} (h : LockC c f node alive) (k : Fin n) :
+      LockC c f node (fun j => if j = k then false else alive j)
+  | step {node node' : Fin n → DState ε} {alive : Fin n → Bool} {i : Fin n} {e : ε} {nt : Notif ε} {ch : Bool}
+      (h : LockC c f node alive) (hi : alive i = true)
+      (hA : localStep (withIds c (f i)) (node i) e = some (node' i, nt, ch))
+      (hB : ∀ j, j ≠ i → alive j = true →
+        ∃ nB, remoteStep (withIds c (f j)) (node j) nt.completed nt.halted nt.updated = some (node' j, nB))
+      (hD : ∀ j, alive j = false → node' j = node j)
+      (room : Room c (node i) nt) : LockC c f node' alive
+
+/-- what `LockC` maintains for the LIVE instances (identifiers issued by lost instances stay issued). -/
+structure LockInvC (c : Cfg ε) {n : Nat} (f : Fin n → Nat → String) (node : Fin n → DState ε) (alive : Fin n → Bool) : Prop where
+  mirror : ∀ i j, alive i = true → alive j = true → Mirror c (node i) (node j)
+  wf : ∀ i, alive i = true → TableWF (node i).table
+  live : ∀ i, alive i = true → ∀ ph pa id r, (c.getPattern ph pa).isSome = true → (node i).table.runAt ph pa id = some r →
+    r.run.halted = false
+  ids : ∀ i, alive i = true → IdInv c (IssuedN f node) (node i)
+
+/-- **failover**: whatever proper or improper subset of the instances is lost, at whatever points of the stream,
+the instances still alive hold, after every input, exactly the same runs (identifier, index, history content) and
+the same finished-run memories — so the survivors, fed the remainder of the stream, go on exactly like a cluster
+that never lost anyone (and, by `single_engine_step`, like ONE engine fed the whole stream). -/
+theorem survivors_stay_identical (c : Cfg ε) (hc : c.caching = true) (hns : NoSing c) (hcw : CfgWF c) {n : Nat}
+    (f : Fin n → Nat → String) (G : GensN f) (node : Fin n → DState ε) (alive : Fin n → Bool)
+    (h : LockC c f node alive) : LockInvC c f node alive := by
+  induction h with
+  | init =>
+    have hnone : ∀ ph pa id (r : LRun ε), ({} : DState ε).table.runAt ph pa id = some r → False := by
+      intro ph pa id r hr; simp [Table.runAt, Table.runsFrom, lookup] at hr
+    exact ⟨fun _ _ _ _ => Mirror.refl c _, fun _ _ => wf_empty, fun _ _ ph pa id r _ hr => (hnone ph pa id r hr).elim,
+      fun _ _ => ⟨fun ph pa id r hr => (hnone ph pa id r hr).elim, fun ph pa id r hr => (hnone ph pa id r hr).elim,
+        fun id hm => by simp [inCache] at hm, fun ph pa _ _ id r _ hr _ => (hnone ph pa id r hr).elim,
+        fun ph pa id r hr => (hnone ph pa id r hr).elim⟩⟩
+  | @lose node alive _ k ih =>
+    have sub : ∀ j, (if j = k then false else alive j) = true → alive j = true := by
+      intro j hj; by_cases e1 : j = k
+      · simp [e1] at hj
+      · simpa [e1] using hj
+    exact ⟨fun i j hi hj => ih.mirror i j (sub i hi) (sub j hj), fun i hi => ih.wf i (sub i hi),
+      fun i hi => ih.live i (sub i hi), fun i hi => ih.ids i (sub i hi)⟩
+  | @step node node' alive i e nt ch _ hi hA hB hD room ih =>
+    have injI : ∀ k l, f i k = f i l → k = l := fun k l hkl => (G i i k l hkl).2
+    have hliveAll : ∀ ph pa id r, (node i).table.runAt ph pa id = some r → r.run.halted = false :=
+      fun ph pa id r hr => ih.live i hi ph pa id r ((ih.ids i hi).known ph pa id r hr) hr
+    have hfr : ∀ k, (node i).nextId ≤ k → ¬ IssuedN f node (f i k) := by
+      rintro k hk ⟨i', k', hk', e'⟩
+      obtain ⟨e1, e2⟩ := G i i' k k' e'
+      subst e1 e2; omega
+    obtain ⟨hnextI, hmem, hsep, hfin, hidsI0, _⟩ := local_ids c hc hcw (f i) injI (IssuedN f node) (node i) (node' i) e nt ch
+      (ih.wf i hi) hliveAll (ih.ids i hi) hfr hA room.evC room.evH
+    have hyg : Hygiene c (node i) (node' i) nt := ⟨room.evC, room.evH, hmem, hsep, hfin⟩
+    have hpair : ∀ j, j ≠ i → alive j = true → LockInv c (node' i) (node' j) ∧ (node' j).nextId = (node j).nextId ∧
+        (∀ ph pa id, c.getPattern ph pa = none → (node' j).table.runAt ph pa id = (node j).table.runAt ph pa id) := by
+      intro j hj haj
+      obtain ⟨nB, hBj⟩ := hB j hj haj
+      have hl : LockInv c (node i) (node j) := ⟨ih.mirror i j hi haj, ih.wf i hi, ih.wf j haj, ih.live i hi⟩
+      obtain ⟨hnx, hfr'⟩ := remote_frame ahead true (withIds c (f j)) (node j) (node' j) _ _ _ nB hBj
+      exact ⟨lockInv_step c hc hns hcw (f i) (f j) (node i) (node j) (node' i) (node' j) e nt nB ch hl hA hBj hyg, hnx, hfr'⟩
+    have hwfI : TableWF (node' i).table :=
+      (local_is_join (withIds c (f i)) hc (node i) (node' i) e nt ch (ih.wf i hi) hA room.evC room.evH).1
+    have hliveI : ∀ ph pa id r, (c.getPattern ph pa).isSome = true → (node' i).table.runAt ph pa id = some r →
+        r.run.halted = false := fun ph pa id r hk hr =>
+      local_live (withIds c (f i)) (node i) (node' i) e nt ch (ih.wf i hi) hA ph pa id
+        (fun r0 => ih.live i hi ph pa id r0 hk) r hr
+    have hissMono : ∀ id, (IssuedN f node id ∨ ∃ k, (node i).nextId ≤ k ∧ k < (node' i).nextId ∧ id = f i k) →
+        IssuedN f node' id := by
+      rintro id (⟨i', k', hk', e'⟩ | ⟨k, _, hk2, ek⟩)
+      · refine ⟨i', k', ?_, e'⟩
+        by_cases hi' : i' = i
+        · subst hi'; omega
+        · cases ha : alive i' with
+          | true => rw [(hpair i' hi' ha).2.1]; exact hk'
+          | false => rw [hD i' ha]; exact hk'
+      · exact ⟨i, k, hk2, ek⟩
+    have hidsI : IdInv c (IssuedN f node') (node' i) := hidsI0.mono hissMono
+    have hmirI : ∀ j, alive j = true → Mirror c (node' i) (node' j) := by
+      intro j haj
+      by_cases hj : j = i
+      · subst hj; exact Mirror.refl c _
+      · exact (hpair j hj haj).1.mirror
+    refine ⟨fun a b ha hb => (hmirI a ha).symm.trans (hmirI b hb), ?_, ?_, ?_⟩
+    · intro j haj
+      by_cases hj : j = i
+      · subst hj; exact hwfI
+      · exact (hpair j hj haj).1.wfB
+    · intro j haj
+      by_cases hj : j = i
+      · subst hj; exact hliveI
+      · exact (hpair j hj haj).1.liveB
+    · intro j haj
+      by_cases hj : j = i
+      · subst hj; exact hidsI
+      · obtain ⟨hinvJ, _, hfrJ⟩ := hpair j hj haj
+        have hknownJ : ∀ ph pa id r, (node' j).table.runAt ph pa id = some r → (c.getPattern ph pa).isSome = true := by
+          intro ph pa id r hr
+          cases hp : c.getPattern ph pa with
+          | some p => rfl
+          | none =>
+            rw [hfrJ ph pa id hp] at hr
+            have := (ih.ids j haj).known ph pa id r hr
+            rw [hp] at this; exact this
+        have toI : ∀ ph pa id r, (node' j).table.runAt ph pa id = some r → (node' i).table.runAt ph pa id = some r := by
+          intro ph pa id r hr
+          rw [← hinvJ.mirror.runs ph pa id (hknownJ ph pa id r hr)]; exact hr
+        refine ⟨hknownJ, fun ph pa id r hr => hidsI.tbl ph pa id r (toI ph pa id r hr), ?_,
+          fun ph pa ph' pa' id r r' hr hr' => hidsI.uniq ph pa ph' pa' id r r' (toI _ _ _ r hr) (toI _ _ _ r' hr'), ?_⟩
+        · intro id hm
+          rw [hinvJ.mirror.memC, hinvJ.mirror.memH] at hm
+          exact hidsI.mem id hm
+        · intro ph pa id r hr
+          rw [hinvJ.mirror.memC, hinvJ.mirror.memH]
+          exact hidsI.fresh ph pa id r (toI _ _ _ r hr)
+
 /-! ### ONE engine fed the whole stream shadows the cluster -/
 
 theorem wf_localStep (c : Cfg ε) (s s' : DState ε) (e : ε) (nt : Notif ε) (ch : Bool) (hwf : TableWF s.table)
